@@ -48,22 +48,28 @@ Expand(C, P) ==
 RECURSIVE Closure(_, _)
 Closure(C, P) == LET E == Expand(C, P) IN IF E = C THEN C ELSE Closure(E, P)   \* fixpoint: any number of pending clients
 
-\* response of client c with observed result r
+\* response of client c with observed result r.  An ERROR reply is indeterminate (the proxy's reply path was dropped, a
+\* connection broke ...): the command may already have executed, may never execute, or may still execute LATER - it stays
+\* pending for ever under a fresh identity (a "zombie", ids >= 1000) and the closure may linearize it at any later point.
+Zombie(line) == 1000 + line
+IsZombie(c) == c >= 1000
 Respond(C, P, c, r) ==
     LET Cl == Closure(C, P) IN
-    IF r.t = "error"
-    THEN \* no information: the operation may or may not have taken effect
-         {[st |-> cfg.st, done |-> IF c \in DOMAIN cfg.done THEN Without(cfg.done, c) ELSE cfg.done] : cfg \in Cl}
-    ELSE {[st |-> cfg.st, done |-> Without(cfg.done, c)] : cfg \in {x \in Cl : c \in DOMAIN x.done /\ x.done[c] = r}}
+    {[st |-> cfg.st, done |-> Without(cfg.done, c)] : cfg \in {x \in Cl : c \in DOMAIN x.done /\ x.done[c] = r}}
+\* configurations after an error reply at trace line `line`: where the operation has been linearized it is forgotten, where it has
+\* not it lives on as the zombie
+RespondError(C, P, c, line) ==
+    {[st |-> cfg.st, done |-> IF c \in DOMAIN cfg.done THEN With(Without(cfg.done, c), Zombie(line), cfg.done[c]) ELSE cfg.done]
+        : cfg \in Closure(C, P)}
 
 \* ---- final placement ----
 NodeData(e, node) == LET i == CHOOSE i \in DOMAIN e.nodes : e.nodes[i].node = node IN e.nodes[i].data
 Holders(e, k) == {e.nodes[i].node : i \in {j \in DOMAIN e.nodes : \E x \in DOMAIN e.nodes[j].data : e.nodes[j].data[x].k = k}}
 Item(e, node, k) == LET d == NodeData(e, node) IN d[CHOOSE x \in DOMAIN d : d[x].k = k]
 FinalMon(e) ==
-    IF ~(e.committed /\ \A k \in DOMAIN pend : DOMAIN pend[k] = {}) THEN {}
+    IF ~(e.committed /\ \A k \in DOMAIN pend : \A c \in DOMAIN pend[k] : IsZombie(c)) THEN {}
     ELSE UNION {
-        LET F == {cfg.st : cfg \in conf[k]}
+        LET F == {cfg.st : cfg \in Closure(conf[k], pend[k])}      \* zombies may or may not have executed by now
             hs == Holders(e, k)
             info == keyinfo[k]
         IN (IF Cardinality(hs) > 1 THEN {"C03.key_duplicated"} ELSE {}) \cup
@@ -86,7 +92,9 @@ RestoreMon(e) ==
       [] i.pttl_kind = "pos" -> IF i.ttl_kind = "pos" /\ i.ttl_le_pttl THEN {}
                                 ELSE IF i.ttl_kind = "zero" THEN {"C19.expiring_key_made_persistent"} ELSE {"C19.ttl_increased"}
       [] i.pttl_kind = "zero" -> IF i.ttl_kind = "pos" THEN {} ELSE {"C19.expiring_key_made_persistent"}
-      [] i.pttl_kind = "neg2" -> {"C19.missing_key_restored"}
+      \* PTTL said "no such key" and DUMP (the next command of the pipeline) found one: it was created in between; restoring it is
+      \* right, and whether it should be volatile is judged at the end of the run (expiry_class_changed)
+      [] i.pttl_kind = "neg2" -> {}
       [] OTHER -> {}
 
 Init == l = 1 /\ viol = {} /\ conf = <<>> /\ pend = <<>> /\ keyinfo = <<>>
@@ -101,13 +109,18 @@ Step ==
               /\ UNCHANGED <<conf, pend, viol>>
          [] e.kind = "init" ->
               /\ conf' = [k \in {e.keys[i].k : i \in DOMAIN e.keys} |->
-                            LET x == e.keys[CHOOSE i \in DOMAIN e.keys : e.keys[i].k = k] IN
+                            \* the seeding may write a key twice (the generator can draw the same key again): the last write counts
+                            LET x == e.keys[CHOOSE i \in DOMAIN e.keys : e.keys[i].k = k /\ \A j \in DOMAIN e.keys : j > i => e.keys[j].k # k] IN
                             {[st |-> [p |-> x.present, v |-> x.v, ttl |-> x.ttl], done |-> <<>>]}]
               /\ pend' = [k \in {e.keys[i].k : i \in DOMAIN e.keys} |-> <<>>]
               /\ UNCHANGED <<keyinfo, viol>>
          [] e.kind = "inv" /\ e.key \in DOMAIN conf ->
               /\ pend' = [pend EXCEPT ![e.key] = With(@, e.client, [op |-> e.op, arg |-> e.arg])]
               /\ UNCHANGED <<conf, keyinfo, viol>>
+         [] e.kind = "resp" /\ e.key \in DOMAIN conf /\ e.result.t = "error" ->
+              /\ conf' = [conf EXCEPT ![e.key] = RespondError(@, pend[e.key], e.client, l)]
+              /\ pend' = [pend EXCEPT ![e.key] = With(Without(@, e.client), Zombie(l), @[e.client])]
+              /\ UNCHANGED <<keyinfo, viol>>
          [] e.kind = "resp" /\ e.key \in DOMAIN conf ->
               LET C2 == Respond(conf[e.key], pend[e.key], e.client, e.result) IN
               /\ pend' = [pend EXCEPT ![e.key] = Without(@, e.client)]
